@@ -1137,8 +1137,7 @@ std::string generate_pattern_string(
     // point.
     bool needs_grouping =
         !part.suffix.empty() ||
-        (!part.prefix.empty() && !options.get_prefix().empty() &&
-         part.prefix[0] != options.get_prefix()[0]);
+        (!part.prefix.empty() && part.prefix != options.get_prefix());
 
     // If all of the following are true:
     // - needs grouping is false; and
